@@ -37,6 +37,9 @@ register(
         "frame/code/traceback/generator/coroutine/async-generator/module objects cannot be read (theorem "
         "reflective_member_refused).  Validated by the tripwire monitor of stream `expr` (keys format-field-attribute, "
         "reflective-builtin, call:*, operator:*).",
+        "The host contract is FALSE for TreeNode.editable_dict() on real tree nodes (finding D26, key "
+        "public-method-exposes-private:editable_dict): it returns dict(self.__dict__).  The end-to-end claim holds only "
+        "modulo that finding; any other public API handing out a node's __dict__ fails the check.",
         "Values bound in locals/globals are not graphtage Token instances.",
         "isinstance() inside get_value/get_member/eval asks the runtime for `__class__` of the operand; this runtime type "
         "inquiry is not counted as an attribute read of the evaluator.",
